@@ -11,7 +11,7 @@ every slot and patch validity by bitmap algebra, exactly like the code:
   unary_op   : raw = f(ra)     for all slots;   valid = va
   try_unary_op : iterates `a.iter()` (Option): f only on valid slots, NULL slot -> builder default
   clear_null : raw &= valid
-  select_op  : raw = if s_raw then a_raw else b_raw; valid = (sv & av) | (!sv & bv)
+  select_op  : c = s_raw & sv; raw = if c then a_raw else b_raw; valid = (c & av) | (!c & bv)
   and        : c = binary_op(&&); valid |= (!ra & va) | (!rb & vb)
   or         : c = binary_op(||); valid |= raw(c)
   div        : safen_dividend(b) then binary_op(/);   rem: binary_op(%) (no safening)
@@ -172,14 +172,18 @@ def orValid {α} : Arr α → List Bool → Arr α
   | ss, [] => ss
   | [], _ => []
 
-/-- `select_op(s, a, b)`. Only `a.len() == b.len()` is asserted by the code; the evaluator
-always passes three arrays of the chunk's cardinality, other shapes are outside the model. -/
+/-- `select_op(s, a, b)` (after repository commit `fix: CASE/select …`): `cond = s_raw & s_valid`
+(the condition is TRUE); `raw = if cond then a_raw else b_raw`,
+`valid = (cond & av) | (!cond & bv)`. Only `a.len() == b.len()` is asserted by the code; the
+evaluator always passes three arrays of the chunk's cardinality, other shapes are outside the
+model. -/
 def selectOp {α} (s : Arr Bool) (a b : Arr α) : KOut (Arr α) :=
   if a.length ≠ b.length ∨ s.length ≠ a.length then .panic
   else
-    let raw := (List.zip (List.zip (raws a) (raws b)) (raws s)).map
+    let cond := bvAnd (raws s) (valids s)
+    let raw := (List.zip (List.zip (raws a) (raws b)) cond).map
       fun p => if p.2 then p.1.1 else p.1.2
-    let valid := bvOr (bvAnd (valids s) (valids a)) (bvNotThenAnd (valids s) (valids b))
+    let valid := bvOr (bvAnd cond (valids a)) (bvNotThenAnd cond (valids b))
     .ok (fromData raw valid)
 
 /-! ### Integer arithmetic of the debug profile -/
